@@ -327,10 +327,58 @@ class CBMModel(Model):
 
 
 MODELS = {f: CBMModel(f) for f in FAMILIES}
-REPLAY = MODELS
+
+
+def eval_same_handle(case):
+    """history on ONE combined-model handle: every merge / unmerge sequence up to the stated depth is carried out through the
+    same object (the BFS above takes a fresh handle for every call); the reference union is compared after every step"""
+    fam, seq = case[0], [tuple(e) for e in case[1]]
+    m = CBMModel(fam)
+    m.build_root(fam)
+    handle = m.cbm()
+    m.cbm = lambda: handle
+    v = []
+    for k, ev in enumerate(seq):
+        pre = m.observe()
+        out = m.apply(ev)
+        for fp, msg in list(m.check(pre, ev, out)) + list(m.invariant()):
+            v.append((f'same-handle/{fp}', f'{msg} [after {seq[:k + 1]} through one handle]'))
+        if v:
+            break
+    return {'v': v, 'nt': (fam, tuple(seq)), 'out': f'len{len(seq)}'}
+
+
+def same_handle_cases(depth):
+    cases = []
+    for fam in ('F2', 'F3'):
+        ids = [spec[2] for spec in FAMILIES[fam]]
+
+        def grow(seq, merged):
+            if seq:
+                cases.append((fam, tuple(seq)))
+            if len(seq) == depth:
+                return
+            for a in ids:
+                ev = ('unmerge', a) if a in merged else ('merge', a)
+                grow(seq + [ev], merged ^ {a})
+        grow([], frozenset())
+    return cases
+
+
+class _R(dict):
+    pass
+
+
+REPLAY = _R(MODELS)
+REPLAY['same-handle'] = eval_same_handle
 
 
 def run(report):
+    from fimmc.engine import explore_cases
+    d = 5 if report.tier == 'quick' else 6
+    explore_cases(report, 'same-handle', eval_same_handle, same_handle_cases(d), chunk=4,
+                  rule=f'families F2 and F3: EVERY merge / unmerge sequence up to length {d}, all steps through one combined-model '
+                       f'handle, reference union after every step')
     q = report.tier == 'quick'
     for fam, depth in (('F2', 7), ('F2x', 6), ('F2o', 6), ('F2c', 6), ('F3', 6 if q else 8), ('F3m', 6 if q else 8), ('F4', 5 if q else 8)):
         g = bfs(report, fam, MODELS[fam], depth=depth, chunk=2,
